@@ -314,7 +314,7 @@ int main(int argc, char **argv)
 		static uint32_t ops[64]; static struct live want;
 		uint64_t idx = b.st.n * k / 64;
 		int n = vx_store_trace(&b.st, idx, ops, 64);
-		vx_store_get(&b.st, idx, &want);
+		memcpy(&want, b.st.data + idx * b.st.ssz, sizeof(want));	/* the live part of the stored state */
 		setup(); b.cur = 0;
 		for (int i = 0; i < n; i++) { b.cur_op = (int)ops[i]; op_apply((int)ops[i]); }
 		if (memcmp(&want, &L, sizeof(L))) { fprintf(stderr, "c13: re-executing the history of state %llu gives a different state\n", (unsigned long long)idx); return 6; }
